@@ -594,20 +594,19 @@ func (r *runningStep) run() {
 		return
 	}
 
-	var newState step.RunningStepState
 	r.lock.Lock()
 	if !r.executionInputAvailable {
-		newState = step.RunningStepStateWaitingForInput
 		waitingForInput = true
-	} else {
-		newState = step.RunningStepStateRunning
 	}
 	r.lock.Unlock()
 	enabledOutput := any(map[any]any{"enabled": true})
-	// End Enabling with resolved output, and start starting
+	// End Enabling with resolved output, and start starting.
+	// The state stays running while the stage change is announced: the workflow can only provide the
+	// input of this stage once it knows that the enabling stage is finished, so the step must not be
+	// reported as waiting for input before that.
 	r.transitionStageWithOutput(
 		StageIDExecute,
-		newState,
+		step.RunningStepStateRunning,
 		schema.PointerTo("resolved"),
 		&enabledOutput,
 	)
@@ -620,6 +619,11 @@ func (r *runningStep) run() {
 		waitingForInput,
 		&r.wg,
 	)
+	r.lock.Lock()
+	if !r.executionInputAvailable {
+		r.currentState = step.RunningStepStateWaitingForInput
+	}
+	r.lock.Unlock()
 	r.runOnInput()
 }
 
